@@ -235,8 +235,16 @@ static string dump(World *w) {
   return o.str();
 }
 
+static volatile sig_atomic_t g_sigpipes = 0;
+static void on_sigpipe(int) { g_sigpipes++; }
+
 static string run_case(const string &payload) {
   vector<string> ops = vh::split(payload, ' ');
+  // The daemon is embedded here as a library: it must protect itself against SIGPIPE (writes to a
+  // client that has closed its end).  Start every case from the default disposition so that
+  // neither the test runner nor a previous case masks what OlaServer::Init() does.
+  signal(SIGPIPE, SIG_DFL);
+  g_sigpipes = 0;
   unsigned ncl = vh::num(ops[0]);
   g_now = T0;
   FLAGS_rpc_port = 0;
@@ -259,6 +267,17 @@ static string run_case(const string &payload) {
   std::auto_ptr<ola::OlaServer> server(new ola::OlaServer(loaders, &prefs, &ss, opt, NULL, NULL));
   w.server = server.get();
   if (!server->Init()) return "init=failed";
+  // observe only: if the daemon left SIGPIPE at its default, count deliveries instead of dying
+  bool sigpipe_unprotected = false;
+  {
+    struct sigaction old_action;
+    memset(&old_action, 0, sizeof(old_action));
+    sigaction(SIGPIPE, NULL, &old_action);
+    if (old_action.sa_handler != SIG_IGN) {
+      sigpipe_unprotected = true;
+      signal(SIGPIPE, on_sigpipe);
+    }
+  }
   loop(&w);
 
   for (unsigned i = 0; i < ncl; i++) {
@@ -414,7 +433,10 @@ static string run_case(const string &payload) {
     delete w.cls[i]->cd;
     delete w.cls[i];
   }
-  return "obs=" + obs + ";cnt=" + cnt + ";once=" + (once ? "1" : "0") + ";srv=" + srv;
+  bool sigpipe = sigpipe_unprotected || g_sigpipes > 0;
+  signal(SIGPIPE, SIG_IGN);
+  return "obs=" + obs + ";cnt=" + cnt + ";once=" + (once ? "1" : "0") + ";sigpipe=" + (sigpipe ? "1" : "0") +
+         ";srv=" + srv;
 }
 
 int main(int argc, char **argv) {
